@@ -12,6 +12,14 @@ extern "C" {
   int verif_choice(int n);                   // symbolic choice in [0,n): the path is forked per feasible value
   void verif_heap_order(int mode);           // 0: later heap objects get higher addresses; 1: lower (executor only)
 }
+// Harness code that does *integer* arithmetic on symbolic values must not be optimised: the executor relaxes integer
+// inputs to reals for proving, and compiler rewrites that are valid only for integers (x <= 0  ->  x < 1) would
+// create spurious real-valued models.  VERIF_NOOPT keeps such functions exactly as written.
+#ifdef __clang__
+#define VERIF_NOOPT __attribute__((optnone, noinline))
+#else
+#define VERIF_NOOPT
+#endif
 #define ASSUME(c) __CPROVER_assume((c) ? 1 : 0)
 #define CHECK(c, msg) __CPROVER_assert((c) ? 1 : 0, msg)
 static inline double verif_coord(int lo, int hi) { return (double)verif_int_in(lo, hi); }
